@@ -22,6 +22,10 @@ TYPES = ["Text", "Blob", "Any", "Bool", "Int", "Numeric", "Date", "DateTime", "C
          "PositionNumber", "ManualSortPos", "Id", "Ref", "RefList", "Attachments"]
 
 
+# column types of the table V of the context engine (DateTime in the zone ZONES[0])
+V_TYPES = ["Text", "Any", "Bool", "Int", "Numeric", "Date", "DateTime:" + ZONES[0], "Choice", "ChoiceList",
+           "Ref:T1", "RefList:T1", "Attachments"]
+
 # ---------------------------------------------------------------------------------- classes used
 class SubStr(str):
   pass
@@ -136,6 +140,9 @@ def make_engine():
   ua('AddTable', 'T2', [{'id': 'B', 'type': 'Text'}])
   ua('BulkAddRecord', 'T1', [None] * 4, {'A': [1, 2, 3, 4]})
   ua('BulkAddRecord', 'T2', [None] * 2, {'B': ['x', 'y']})
+  # one column per column type (C07 value level: real column objects for convert / set)
+  ua('AddTable', 'V', [{'id': 'c_' + t.split(':')[0], 'type': t} for t in V_TYPES])
+  ua('BulkAddRecord', 'V', [None] * 3, {})
   return eng
 
 
@@ -634,7 +641,7 @@ def atom_table():
             "[]", "[ ]", " []", "[1,2]", "[1, 2]", "[1, 2", "[1,2]x", "[1.5]", "[1.0]", "[0]", "[-1]", "[true]",
             "[false]", "[null]", "[\"a\"]", "[\"a\", \"b\"]", "[\"\"]", "[[1]]", "[[]]", "[{\"a\": 1}]", "[1e400]",
             "[NaN]", "[2147483648]", "[1, \"2\"]", "['a']", "[1,]", "[\"\\u00e9\"]", "[1, 2.5, \"x\", null, true]",
-            "[99999999999999999999]",
+            "[99999999999999999999]", "\"abc\"", "{\"a\": 1}", "{}", "null", "123",
             "RecordList([1, 2], group_by=None, sort_by=None)", "RecordList([], group_by=None, sort_by=None)",
             "RecordList([1,2", "RecordList([3])", "RecordList([-1, 0])", "RecordList([1_0])",
             "RecordList([ 7 ])", "RecordList([2147483648])", "RecordList([1.5])", "RecordList([a])",
